@@ -2,6 +2,7 @@ package checks
 
 import (
 	"fmt"
+	"sort"
 
 	"verif.local/pvmon/internal/h"
 	"verif.local/pvmon/internal/spec"
@@ -96,6 +97,22 @@ func runC11(ctx *h.Ctx) int {
 	prof.PAuto, prof.MaxLeaves, prof.PTextArg, prof.NoRedundantPar, prof.PRepeatAuto = 0.5, 3, 0.1, false, 0.25
 	ctx.RunCases("autovar-in-programs", ctx.N(2500, 100000), func(k *h.Case) {
 		g, prog := genScripts(k, prof, 1)
+		if k.Index%3 == 0 {
+			// a constant spelled like the configured result var of an AutoVar command: the compared var
+			// comes from the command config and is not a use of that constant
+			var names []string
+			for n, av := range prog.AutoVars {
+				if av.ArgPos < 0 {
+					names = append(names, av.VarName)
+				}
+				_ = n
+			}
+			sort.Strings(names)
+			if len(names) > 0 {
+				prog.Items = append([]spec.Item{&spec.Const{ID: prog.NewID(), Name: names[k.R.IntN(len(names))], Value: []string{"VAR_TEMP_9"}}}, prog.Items...)
+				k.Count("programs_with_constant_spelled_like_result_var", 1)
+			}
+		}
 		pr := layoutOf(k, prog, 0.15)
 		k.SetSource(pr.Src)
 		lm := buildLabelModel(prog)
